@@ -1235,19 +1235,27 @@ class MountPointStore(RoutingStore):
 
     def keys(self):
         prefixes = []
+        seen = set()
         for prefix, store in reversed(self.routing_table):
-            yield prefix
+            # the mount point and its ancestors are directories of this store
+            directory = prefix
+            while directory not in ("", None):
+                if directory not in seen:
+                    seen.add(directory)
+                    yield directory
+                directory = parent_key(directory)
             if not prefix.endswith("/"):
                 prefix += "/"
             for key in store.keys():
-                if any(key.startswith(p) for p in prefixes):
+                if key in seen or any(key.startswith(p) for p in prefixes):
                     continue
                 if key.startswith(prefix):
+                    seen.add(key)
                     yield key
             prefixes.append(prefix)
         if self.default_store is not None:
             for key in self.default_store.keys():
-                if any(key.startswith(p) for p in prefixes):
+                if key in seen or any(key.startswith(p) for p in prefixes):
                     continue
                 yield key
 
